@@ -209,6 +209,15 @@ func (x *Exec) havocLoop(st *State, fr *Frame, l *loopInfo) {
 			nm = ph.Name()
 		}
 		nv := x.symbolic(st, ph.Type(), tag+"."+nm)
+		if isCommandSlice(ph.Type()) || isAwaitableSlice(ph.Type()) {
+			if sl, ok := nv.(VSlice); ok && sl.Arr >= 0 {
+				if abs, ok := st.heap[sl.Arr].(*VAbsArr); ok {
+					cp := *abs
+					x.attachSliceFacts(st, &cp, ph.Type(), ph)
+					st.heap[sl.Arr] = &cp
+				}
+			}
+		}
 		// induction variables: constant start, constant positive step => lower bound
 		if b := basicOf(ph.Type()); b != nil && b.Info()&types.IsInteger != 0 {
 			if lo, ok := inductionLowerBound(ph, l); ok {
@@ -408,6 +417,7 @@ outside:
 // havocValueTarget forgets the contents reachable through root for the
 // access described by addr (relative to rootVal).
 func (x *Exec) havocValueTarget(st *State, root Value, rootT types.Type, addr, rootVal ssa.Value, tag string) {
+	rootSSA := rootVal
 	root = x.force(st, root)
 	switch r := root.(type) {
 	case VPtr:
@@ -440,7 +450,9 @@ func (x *Exec) havocValueTarget(st *State, root Value, rootT types.Type, addr, r
 			cp := *arr
 			cp.Cells = nil
 			cp.ElemGen = nil
+			cp.Havocked = true
 			cp.Name = tag + "." + arr.Name
+			x.attachSliceFacts(st, &cp, rootT, rootSSA)
 			st.heap[r.Arr] = &cp
 		}
 	case VMap:
@@ -579,6 +591,29 @@ func rootIsLocalAlloc(addr ssa.Value) bool {
 			return true
 		default:
 			return false
+		}
+	}
+}
+
+// attachSliceFacts records what the function ever stores into the slice (see analysis.go).
+func (x *Exec) attachSliceFacts(st *State, arr *VAbsArr, t types.Type, v ssa.Value) {
+	if v == nil {
+		return
+	}
+	fn := st.top().fn
+	if isCommandSlice(t) {
+		arr.CmdKinds = x.commandKindsFor(fn, v)
+	}
+	if isAwaitableSlice(t) {
+		arr.AwaitKinds = x.awaitKindsFor(fn, v)
+		if arr.AwaitKinds != nil {
+			kinds := arr.AwaitKinds
+			name := arr.Name
+			elemT := t.Underlying().(*types.Slice).Elem()
+			arr.ElemGen = func(s *State, idx Term) Value {
+				x.callCounter++
+				return VIface{Nil: x.sym.Fresh(name+".elem.isnil", SBool), Val: VAwait{Sym: true, Kinds: kinds}, Typ: elemT}
+			}
 		}
 	}
 }
